@@ -258,8 +258,23 @@ func (r *ATRun) PhaseOne(hook func(r *ATRun, localIdx int)) {
 	r.Initial = w.DumpTable(sc.Table)
 	w.coord.ResetLog()
 	w.Eng.ResetJournal()
+	// every fifth case runs its local transactions on ONE pinned connection (db.Conn): database/sql does not
+	// reset the session between them, as it does when a connection comes out of the pool
+	pinned := idHash(c.ID)%5 == 1
 	r.crash = safeCall(func() {
 		r.xid, _ = InGlobalTx(c.ID, func(ctx context.Context) error {
+			var db interface {
+				BeginTx(ctx context.Context, opts *sql.TxOptions) (*sql.Tx, error)
+				ExecContext(ctx context.Context, query string, args ...interface{}) (sql.Result, error)
+			} = w.DB
+			if pinned {
+				conn, cerr := w.DB.Conn(ctx)
+				if cerr != nil {
+					panic(cerr)
+				}
+				defer conn.Close()
+				db = conn
+			}
 			for li, ltx := range c.Locals {
 				if ltx.Explicit && ltx.ContinueOnError {
 					r.Toks = append(r.Toks, "Lc")
@@ -270,7 +285,7 @@ func (r *ATRun) PhaseOne(hook func(r *ATRun, localIdx int)) {
 				var err error
 				if ltx.Explicit {
 					var tx *sql.Tx
-					tx, err = w.DB.BeginTx(ctx, nil)
+					tx, err = db.BeginTx(ctx, nil)
 					if err == nil {
 						for _, st := range ltx.Stmts {
 							q, args, tok := st.Render(sc)
@@ -296,7 +311,7 @@ func (r *ATRun) PhaseOne(hook func(r *ATRun, localIdx int)) {
 					q, args, tok := st.Render(sc)
 					r.Toks = append(r.Toks, tok)
 					disarm := st.Arm(w.Eng, sc.Table)
-					_, err = w.DB.ExecContext(ctx, q, args...)
+					_, err = db.ExecContext(ctx, q, args...)
 					disarm()
 				}
 				brs := w.coord.RegisteredBranches(tmXID(ctx))
@@ -365,4 +380,14 @@ func (r *ATRun) RollbackAll() bool {
 func (r *ATRun) Snap() {
 	r.Toks = append(r.Toks, "SNAP")
 	r.Obs = append(r.Obs, r.snapshot())
+}
+
+// idHash is a small deterministic hash of a case id (for directed variants that must not depend on the
+// random stream)
+func idHash(id string) int {
+	h := 0
+	for _, ch := range id {
+		h = (h*31 + int(ch)) % 1000003
+	}
+	return h
 }
